@@ -11,7 +11,9 @@ def bgSpecOfJson (j : Json) : Except String BgSpec := do
   let b ← j.getObjVal? "beh"
   let beh := match jopt b "ends" with
     | some d => BgBeh.endsAfter (d.getNat?.toOption.getD 0) (joptNat b "exc")
-    | none => BgBeh.forever
+    | none => match joptNat b "excOnCancel" with
+      | some e => BgBeh.failsWhenCancelled e
+      | none => BgBeh.forever
   pure ⟨← jnat j "h", beh⟩
 
 def flabOfJson (j : Json) : Except String FLab := do
